@@ -12,6 +12,7 @@ import DatamonVerif.Drv.C18
 import DatamonVerif.Drv.C12
 import DatamonVerif.Drv.C09
 import DatamonVerif.Drv.C05
+import DatamonVerif.Drv.C10
 open DV
 
 def main (args : List String) : IO UInt32 := do
@@ -34,4 +35,5 @@ def main (args : List String) : IO UInt32 := do
   | ["model", "C12"] => loop C12.handler inp out C12.handler.init; return 0
   | ["model", "C09"] => loop C09.handler inp out C09.handler.init; return 0
   | ["model", "C05"] => loop C05.handler inp out C05.handler.init; return 0
+  | ["model", "C10"] => loop C10.handler inp out C10.handler.init; return 0
   | _ => IO.eprintln "usage: dvdriver model <Cxx>"; return 2
